@@ -58,6 +58,9 @@ func profileFor0(name string) *Profile {
 		p.ScaleW = []int{4, 2, 3, 3}
 		p.W["dust"] = 8
 	case "C04":
+		p.SpecialEvery = 6
+		p.Special, p.SpecialReplay = specialC03, replayC03
+		p.Assumptions = append(p.Assumptions, "one run in six is a mode-B scenario check (the C03 enumeration): every downstream call of a delivery with fees fails once per mode and per error class; a transfer that is still acknowledged must have credited every fee entry exactly as the fault-free delivery does")
 		p.ClassW = map[string]int{"canon": 70, "refuse": 30, "free": 2, "plain": 2, "nearmiss": 0, "exotic": 4, "multierr": 0}
 		p.RefuseKinds = []string{"C04"}
 		p.FeeW = []int{1, 3, 4, 3, 4}
